@@ -370,8 +370,9 @@ class Interp:
                 if w == when and isinstance(pat, str) and '*' in pat and fnmatch.fnmatchcase(fp, pat):
                     g = gg
                     break
-        if g:
+        if g is not None:
             self.V.ghost_hits.add((c.key, when, fp))
+        if g:
             self.ghost_exec(g, fr)
 
     def st_Pass(self, s, fr):
